@@ -614,7 +614,9 @@ func c18Policy(c *Ctx, p *Prog) {
 	}
 	for _, o := range outs {
 		var haveNone, replace, older *bool
-		for k, v := range o.Assign {
+		for _, k := range o.AtomKeys() {
+			v := o.Assign[k]
+			_ = v
 			s := o.AtomSyms[k]
 			vv := v
 			str := s.String()
